@@ -20,6 +20,8 @@ m = dict(version=1, setup_cmd='./setup.sh',
                     baseline_off_cmd='cd /repo && cargo test --workspace --no-fail-fast --offline', source_commits=[], add_only=True),
          engines=[dict(name='verus-on-real-source', path='/verif/tools', serves_properties=[c['property_id'] for c in checks if c['engine'] == 'verus-on-real-source'],
                        kind_free_text='contract-based deductive verification: Verus 0.2026.09.13 on the text of /repo/src re-extracted on every run, contracts woven in from /verif/contracts'),
+                  dict(name='kani-and-native-enumeration', path='/verif/kani', serves_properties=['C18'],
+                       kind_free_text='Kani 0.68 harnesses over the real dev_input_rw.rs / struct_ser.rs / key_codes.rs (thorough tier, recorded per content hash) + exhaustive native enumeration through a pipe (every run)'),
                   dict(name='harness', path='/verif/harness', serves_properties=[c['property_id'] for c in checks],
                        kind_free_text='plain-Rust crate that include!s the real source files: witness search + replay of counterexamples, N2 differential validation, exhaustive stand-ins; never decides a property on its own')],
          checks=checks, not_applicable=na, notes=T.NOTES)
